@@ -63,7 +63,7 @@ def compare(ctx, jobs, op="solve"):
 
 
 def run(ctx):
-    n = ctx.scale(150, 1500)
+    n = ctx.scale(130, 1500)
     jobs, meta = [], []
     for s, tags in cases_for(ctx, n):
         nc, no = len(s["constraints"]), len(s["objects"])
@@ -90,8 +90,11 @@ def run(ctx):
             ctx.impl_property_evals += 1
             v = pc.c26_violations(s, out)
             if v:
-                ctx.violation({"sys": pc.strip(s), "obj_order": oo, "con_order": co},
-                              "placement succeeded (" + json.dumps(out["slices"]) + ") but " + "; ".join(v[:3]))
+                if not ctx.violations:                    # shrink the first one only
+                    _report(ctx, s, oo, co)
+                else:
+                    ctx.violation({"sys": pc.strip(s), "obj_order": oo, "con_order": co},
+                                  "placement succeeded (" + json.dumps(out["slices"]) + ") but " + "; ".join(v[:3]))
     res = compare(ctx, jobs)
     # place_objects: the public entry point raises exactly when the solver reports errors, and the placed
     # objects carry the resolved slices
